@@ -284,6 +284,18 @@ def _tuple(E, st, args, kw, n):
     yield st, ops.as_seq(st, v)
 
 
+@static("builtins:set")
+def _set(E, st, args, kw, n):
+    """set() / set(iterable-of-str): a new set"""
+    hint = getattr(n, "_elem_hint", None) or STR
+    r = st.new_ref(SET(hint))
+    dom = z3.K(sort_of(hint), z3.BoolVal(False))
+    if args:
+        raise Unsupported("set(x)")
+    st.set_set(r, dom)
+    yield st, r
+
+
 @static("builtins:dict.get", "builtins:dict.pop", "builtins:dict.setdefault")
 def _dict_raw_method(E, st, args, kw, n):
     """dict.get(self, k) etc. on a dict subclass: the raw dict operation, bypassing overrides"""
